@@ -201,40 +201,53 @@ func (vc *VC) loopsOf(fn *ssa.Function) map[*ssa.BasicBlock]*loopInfo {
 			return true
 		})
 	}
+	// ordinals: SSA loop heads in block order correspond to the AST loop statements in source (pre-)order; when
+	// the counts differ (a loop without back edge), fall back to matching by source position
+	var heads []*loopInfo
 	for _, li := range loops {
-		// innermost AST loop containing all positions in the body
-		best := -1
-		for i, al := range astLoops {
-			ok := true
-			any := false
-			for b := range li.body {
-				for _, in := range b.Instrs {
-					if _, isDbg := in.(*ssa.DebugRef); isDbg {
-						continue
+		heads = append(heads, li)
+	}
+	sort.Slice(heads, func(i, j int) bool { return heads[i].head.Index < heads[j].head.Index })
+	if len(heads) == len(astLoops) {
+		for i, li := range heads {
+			li.ordinal = i + 1
+			li.pos = astLoops[i].Pos()
+		}
+	} else {
+		for _, li := range heads {
+			best := -1
+			for i, al := range astLoops {
+				ok := true
+				any := false
+				for b := range li.body {
+					for _, in := range b.Instrs {
+						switch in.(type) {
+						case *ssa.DebugRef, *ssa.Phi:
+							continue
+						}
+						p := in.Pos()
+						if p == token.NoPos {
+							continue
+						}
+						any = true
+						if p < al.Pos() || p > al.End() {
+							ok = false
+						}
 					}
-					if _, isPhi := in.(*ssa.Phi); isPhi {
-						continue
-					}
-					p := in.Pos()
-					if p == token.NoPos {
-						continue
-					}
-					any = true
-					if p < al.Pos() || p > al.End() {
-						ok = false
+				}
+				if ok && any {
+					if best < 0 || (astLoops[best].Pos() <= al.Pos() && al.End() <= astLoops[best].End()) {
+						best = i
 					}
 				}
 			}
-			if ok && any {
-				if best < 0 || (astLoops[best].Pos() <= al.Pos() && al.End() <= astLoops[best].End()) {
-					best = i
-				}
+			li.ordinal = best + 1
+			if best >= 0 {
+				li.pos = astLoops[best].Pos()
 			}
 		}
-		li.ordinal = best + 1
-		if best >= 0 {
-			li.pos = astLoops[best].Pos()
-		}
+	}
+	for _, li := range heads {
 		switch {
 		case strings.HasPrefix(li.head.Comment, "rangeindex"):
 			li.kind = "rangeindex"
@@ -1468,6 +1481,11 @@ func (vc *VC) step(st *State, fr *Frame, in ssa.Instruction) bool {
 		tag := vc.typeID(x.X.Type())
 		switch p := v.(type) {
 		case Sc:
+			if p.S != SInt {
+				// booleans / floats are boxed: opaque payload
+				fr.env[x] = IfaceV{Tag: tag, Pay: st.fresh("box", SInt), Dyn: x.X.Type()}
+				break
+			}
 			fr.env[x] = IfaceV{Tag: tag, Pay: p.T, Dyn: x.X.Type()}
 		case LocV:
 			if p.Prefix == "" && !p.Elem {
